@@ -40,6 +40,8 @@ type zzvScn struct {
 	threads  [][]zzvOp
 	saturat  bool
 	presetTo uint64 // if non-zero: cell of counter 0 is pre-set to this value in set-up
+	useDefault bool // the process is the package's default file, opened through Open()
+	stack      bool // the scenario increments a StackCounter
 	thorough bool   // only in the thorough tier
 	deep     bool   // small enough for preemption bound 4 in the thorough tier
 }
@@ -67,6 +69,8 @@ func zzvC03Scenarios() []zzvScn {
 		{deep: true, name: "S8b-saturate-cell", ctrNames: []string{"a"}, saturat: true, preOpen: true, pre: []zzvOp{A(0, 1)}, presetTo: ^uint64(0) - 2, threads: [][]zzvOp{{A(0, 1)}, {A(0, 2)}, {A(0, 1<<62)}}},
 		{deep: true, name: "S9-three-adds-mapped", ctrNames: []string{"a"}, preOpen: true, pre: []zzvOp{A(0, 4)}, threads: [][]zzvOp{{A(0, 1)}, {A(0, 2)}, {A(0, 8)}}},
 		{deep: true, name: "S10-open-fails-adds", ctrNames: []string{"a"}, threads: [][]zzvOp{{A(0, 1)}, {A(0, 2)}, {zzvOp{kind: "openfail"}}}},
+		{name: "S12-two-Open-calls-and-add", ctrNames: []string{"a"}, useDefault: true, threads: [][]zzvOp{{A(0, 1)}, {zzvOp{kind: "openapi"}}, {zzvOp{kind: "openapi"}, A(0, 2)}}},
+		{name: "S13-stackcounter-inc-inc-open", ctrNames: []string{}, useDefault: true, stack: true, threads: [][]zzvOp{{zzvOp{kind: "stackinc"}}, {zzvOp{kind: "stackinc"}}, {zzvOp{kind: "openapi"}}}},
 		{name: "S11-add-open-then-rotate", ctrNames: []string{"a", "b"}, threads: [][]zzvOp{{A(0, 1), A(1, 2)}, {open, rot}}},
 	}
 }
@@ -84,7 +88,20 @@ func zzvC03Scenario(base string, scn *zzvScn) *sched.Scenario {
 			vos.Points, vos.Faults = false, false
 			w := zzvNewWorld(base, "")
 			w.saturat = scn.saturat
-			f := w.newProc()
+			var f *file
+			var sc *StackCounter
+			if scn.useDefault {
+				ZZVResetOpen()
+				defaultFile.buildInfo = zzvBuildInfo()
+				defaultFile.counters.Store(nil)
+				f = &defaultFile
+				w.procs = append(w.procs, f)
+				if scn.stack {
+					sc = NewStack("stk", 4)
+				}
+			} else {
+				f = w.newProc()
+			}
 			var cs []*Counter
 			for _, n := range scn.ctrNames {
 				cs = append(cs, w.newCounter(f, n))
@@ -122,6 +139,10 @@ func zzvC03Scenario(base string, scn *zzvScn) *sched.Scenario {
 						case "rotate":
 							w.now = w.now.AddDate(0, 0, 7)
 							f.rotate1()
+						case "openapi":
+							Open(false)
+						case "stackinc":
+							zzvStackInc(w, sc)
 						case "openfail":
 							// the local directory is replaced by a file: MkdirAll / open fail
 							os.RemoveAll(w.dir + "/local")
@@ -192,7 +213,13 @@ func zzvC03Scenario(base string, scn *zzvScn) *sched.Scenario {
 			out := zzvHash(per["a"], pend["a"], per["b"], pend["b"], open, len(v))
 			return v, out
 		},
-		Teardown: func(x *sched.Exec) { x.Scratch.(*zzvC03Run).w.teardown() },
+		Teardown: func(x *sched.Exec) {
+			x.Scratch.(*zzvC03Run).w.teardown()
+			if scn.useDefault {
+				ZZVResetOpen()
+				defaultFile.counters.Store(nil)
+			}
+		},
 	}
 }
 
@@ -427,4 +454,29 @@ func zzvOutcomeSet(st sched.Stats) string {
 	}
 	sort.Strings(ss)
 	return fmt.Sprint(outs, ss)
+}
+
+// zzvStackInc increments the stack counter from one fixed call site (so that both threads
+// present the same call stack) and books the increment under the encoded name.
+//
+//go:noinline
+func zzvStackInc(w *zzvWorld, sc *StackCounter) {
+	w.begun["stk"]++
+	sched.MarkOp()
+	sc.Inc()
+	// Register the counters the stack counter created with the world's oracle.
+	for _, c := range sc.Counters() {
+		known := false
+		for _, k := range w.ctrs {
+			if k == c {
+				known = true
+			}
+		}
+		if !known {
+			w.ctrs = append(w.ctrs, c)
+		}
+	}
+	if n := len(sc.Names()); n > 1 {
+		w.stepErr = append(w.stepErr, fmt.Sprintf("unknown counter: one call stack produced %d stack counters", n))
+	}
 }
